@@ -1035,3 +1035,31 @@ mod tests {
         Ok(())
     }
 }
+
+/// Read-only structural dump of a transition rule, for the external verification harness.
+#[cfg(feature = "__internal_verif")]
+impl TransitionRule {
+    pub(crate) fn verif_dump(&self) -> crate::offset::local::__verif::RuleDump {
+        use crate::offset::local::__verif::{DayDump, RuleDump};
+        fn day(d: &RuleDay) -> DayDump {
+            match *d {
+                RuleDay::Julian1WithoutLeap(n) => DayDump::Julian1(n),
+                RuleDay::Julian0WithLeap(n) => DayDump::Julian0(n),
+                RuleDay::MonthWeekday { month, week, week_day } => {
+                    DayDump::MonthWeekday(month, week, week_day)
+                }
+            }
+        }
+        match self {
+            TransitionRule::Fixed(ltt) => RuleDump::Fixed(ltt.verif_dump()),
+            TransitionRule::Alternate(alt) => RuleDump::Alternate {
+                std: alt.std.verif_dump(),
+                dst: alt.dst.verif_dump(),
+                start: day(&alt.dst_start),
+                start_time: alt.dst_start_time,
+                end: day(&alt.dst_end),
+                end_time: alt.dst_end_time,
+            },
+        }
+    }
+}
